@@ -148,3 +148,11 @@ def run(ctx):
             err_edge_ok = swt is not None and swt["k"] == "switch" and (sigerr in errv or -1 in errv) and bb not in rs.reachable(M.switch_target(swt, errv[0]))
             ctx.ob("R18.3", "signal.error-checked", err_edge_ok, rs.loc(sb), "SIG_ERR from signal() must lead to Err, not Ok")
         ctx.ob("R18.3", "ok-return-exists", bool(okb), rs.loc(0), "reset_sigpipe has an Ok return")
+
+
+def run_thorough(ctx):
+    # whole-program who-may-call: process creation and exec only through the crate's wrappers
+    deep_census(ctx, "R18.1", ["fork", "vfork", "clone", "clone3", "posix_spawn", "posix_spawnp", "_Fork"], {"fork": ["posix::fork"]})
+    deep_census(ctx, "R18.2", EXEC_EXTERNS, {"execv": ["posix::PrepExec::libc_exec"], "execve": ["posix::PrepExec::libc_exec"]})
+    deep_census(ctx, "R18.3", ["sigaddset", "sigfillset", "sigprocmask", "sigaction", "pthread_sigmask", "signal", "sigemptyset"],
+                {"pthread_sigmask": ["posix::reset_sigpipe"], "signal": ["posix::reset_sigpipe"], "sigemptyset": ["posix::reset_sigpipe"]})
